@@ -234,37 +234,30 @@ def deps_of(P: Dict[str, Any]) -> Dict[str, List[str]]:
 
 
 def descendants(deps: Dict[str, List[str]]) -> Dict[str, set]:
+    """site -> all sites that depend on it, directly or not (iterative: programs may be thousands of sites deep)."""
     children: Dict[str, set] = {s: set() for s in deps}
     for s, ds in deps.items():
         for d in ds:
             children[d].add(s)
-    memo: Dict[str, set] = {}
-
-    def go(s: str) -> set:
-        if s not in memo:
-            acc: set = set()
-            for c in children[s]:
-                acc.add(c)
-                acc |= go(c)
-            memo[s] = acc
-        return memo[s]
-
-    return {s: go(s) for s in deps}
+    out: Dict[str, set] = {}
+    for s in reversed(list(deps)):  # program order is topological: every child comes later
+        acc: set = set()
+        for c in children[s]:
+            acc.add(c)
+            acc |= out[c]
+        out[s] = acc
+    return {s: out[s] for s in deps}
 
 
 def ancestors(deps: Dict[str, List[str]]) -> Dict[str, set]:
-    memo: Dict[str, set] = {}
-
-    def go(s: str) -> set:
-        if s not in memo:
-            acc: set = set()
-            for d in deps[s]:
-                acc.add(d)
-                acc |= go(d)
-            memo[s] = acc
-        return memo[s]
-
-    return {s: go(s) for s in deps}
+    out: Dict[str, set] = {}
+    for s in deps:  # program order is topological: every dependency comes earlier
+        acc: set = set()
+        for d in deps[s]:
+            acc.add(d)
+            acc |= out[d]
+        out[s] = acc
+    return out
 
 
 def compound_priority(P: Dict[str, Any], prios: Optional[Dict[str, int]] = None) -> Dict[str, int]:
